@@ -325,6 +325,11 @@ func init() {
 					reps = all
 				}
 				kids := append(append([]string{"\x00missing"}, jsonValues...), repsCoarse...)
+				// arrays of documents in operand position (array elements must be plain values)
+				for _, r := range repsCoarse {
+					kids = append(kids, "["+r+"]", "[1,"+r+"]")
+				}
+				kids = append(kids, "[null]", "[1,null]")
 				if (jsonOps[i] == "AND" || jsonOps[i] == "OR") && p[1] == "thorough" {
 					kids = append(kids, ok...)
 				}
